@@ -9,11 +9,13 @@ import (
 )
 
 type GenOpts struct {
-	Ns         []int // committee sizes to draw from
-	MaxOps     int
-	ForceByz   bool // always use the maximum number of Byzantine operators
-	NoByz      bool
-	VerifyOnly *bool // fix signature verification mode
+	Ns          []int // committee sizes to draw from
+	MaxOps      int
+	ForceByz    bool // always use the maximum number of Byzantine operators
+	NoByz       bool
+	VerifyOnly  *bool // fix signature verification mode
+	MultiHeight bool  // programs may move on to the next height (replay material from earlier heights)
+	NetFaults   bool  // broadcast faults (published-but-error, lost)
 }
 
 func mask(t *rapid.T, n int, label string) uint32 {
@@ -102,6 +104,10 @@ func Gen(t *rapid.T, o GenOpts) Prog {
 			return Op{K: "forge", Forge: fg}
 		case "aggregate":
 			return Op{K: "aggregate", Round: rapid.IntRange(1, 4).Draw(t, "ar"), Value: rapid.SampledFrom([]string{"A", "B", "C"}).Draw(t, "av"), Mask: mask(t, n, "amask")}
+		case "netfail":
+			return Op{K: "netfail", I: rapid.IntRange(1, n).Draw(t, "nf_i"), Limit: rapid.SampledFrom([]int{0, 0, 1}).Draw(t, "nf_lose")}
+		case "nextheight":
+			return Op{K: "nextheight"}
 		default:
 			return Op{K: "start", I: rapid.IntRange(1, n).Draw(t, "si")}
 		}
@@ -200,9 +206,91 @@ func Gen(t *rapid.T, o GenOpts) Prog {
 		}
 		return ops
 	}
+	// Byzantine leader of a later round proposes the invalid value with a well-formed justification
+	invalidLater := func(t *rapid.T) []Op {
+		fg := func(tp string, by int) Op {
+			return Op{K: "forge", Forge: &Forge{By: by, ByLeader: tp == "proposal", T: tp, RoundRel: 0, Value: "X", Just: "auto", Prepared: "none"}}
+		}
+		ops := []Op{{K: "timeout"}}
+		for i := 0; i < nb; i++ {
+			ops = append(ops, Op{K: "forge", Forge: &Forge{By: i, T: "rc", RoundRel: 0, Prepared: "none"}})
+		}
+		ops = append(ops, Op{K: "flush", Types: "R"}, fg("proposal", 0), Op{K: "flush", Types: "P", Src: 1})
+		for i := 0; i < nb; i++ {
+			ops = append(ops, fg("prepare", i))
+		}
+		ops = append(ops, Op{K: "flush", Types: "p"})
+		for i := 0; i < nb; i++ {
+			ops = append(ops, fg("commit", i))
+		}
+		return append(ops, Op{K: "flush", Types: "C"})
+	}
+	// commit-fault script: X and Y reach the prepare quorum, X's commit is published but its broadcast reports an
+	// error; with a Byzantine commit Y alone decides; everybody else times out and the next round runs without Y.
+	commitFault := func(t *rapid.T) []Op {
+		x := rapid.IntRange(1, n).Draw(t, "cf_x")
+		y := rapid.IntRange(1, n).Draw(t, "cf_y")
+		bx, by := uint32(1)<<uint(x-1), uint32(1)<<uint(y-1)
+		fg := func(tp string, i int) Op {
+			return Op{K: "forge", Forge: &Forge{By: i, ByLeader: tp == "proposal", T: tp, RoundRel: 0, Value: "last", Just: "auto", Prepared: "none"}}
+		}
+		ops := []Op{{K: "flush", Types: "P"}}
+		for i := 0; i < nb; i++ {
+			ops = append(ops, fg("prepare", i))
+		}
+		ops = append(ops, Op{K: "netfail", I: x, Limit: rapid.SampledFrom([]int{0, 0, 0, 1}).Draw(t, "cf_lose")})
+		ops = append(ops, Op{K: "flush", Types: "p", To: bx | by})
+		for i := 0; i < nb; i++ {
+			ops = append(ops, fg("commit", i))
+		}
+		ops = append(ops, Op{K: "flush", Types: "C", To: by}, Op{K: "timeout"})
+		for i := 0; i < nb; i++ {
+			ops = append(ops, Op{K: "forge", Forge: &Forge{By: i, T: "rc", RoundRel: 0, Prepared: "none"}})
+		}
+		ops = append(ops, Op{K: "forge", Forge: &Forge{By: 0, ByLeader: true, T: "proposal", RoundRel: 0, Value: rapid.SampledFrom([]string{"B", "C", "auto"}).Draw(t, "cf_v"), Just: "auto"}})
+		ops = append(ops, Op{K: "flush", Types: "R"}, Op{K: "flush", Types: "P"})
+		for i := 0; i < nb; i++ {
+			ops = append(ops, fg("prepare", i))
+		}
+		ops = append(ops, Op{K: "flush", Types: "p"})
+		for i := 0; i < nb; i++ {
+			ops = append(ops, fg("commit", i))
+		}
+		return append(ops, Op{K: "flush", Types: "C"})
+	}
+	// replay script: round-changes of an earlier height are used to fake an unprepared quorum at the next height
+	replay := func(t *rapid.T) []Op {
+		var ops []Op
+		ops = append(ops, Op{K: "timeout"}, Op{K: "flush", Types: "R", Limit: rapid.SampledFrom([]int{0, 2, 4}).Draw(t, "rp_lim")})
+		if rapid.Bool().Draw(t, "rp_sync") {
+			ops = append(ops, Op{K: "flush"})
+		}
+		ops = append(ops, Op{K: "nextheight"})
+		ops = append(ops, script(t)...)
+		ops = append(ops, Op{K: "timeout"})
+		v := rapid.SampledFrom([]string{"B", "C"}).Draw(t, "rp_v")
+		fg := func(tp string, by int) Op {
+			return Op{K: "forge", Forge: &Forge{By: by, ByLeader: tp == "proposal", T: tp, RoundRel: 0, Value: v, Just: "replay", Prepared: "none"}}
+		}
+		ops = append(ops, fg("proposal", 0), Op{K: "flush", Types: "P", Src: 1, To: biasedMask(t, "rp_to")})
+		for i := 0; i < nb; i++ {
+			ops = append(ops, fg("prepare", i))
+		}
+		ops = append(ops, Op{K: "flush", Types: "p"})
+		for i := 0; i < nb; i++ {
+			ops = append(ops, fg("commit", i))
+		}
+		return append(ops, Op{K: "flush", Types: "C"})
+	}
 	max := o.MaxOps
 	if max == 0 {
 		max = 40
+	}
+	if o.NetFaults {
+		kinds = append(kinds, "netfail")
+	}
+	if o.MultiHeight {
+		kinds = append(kinds, "nextheight")
 	}
 	if nb > 0 && rapid.IntRange(0, 4).Draw(t, "locksplit") == 0 {
 		if rapid.Bool().Draw(t, "ls_pre") {
@@ -215,8 +303,18 @@ func Gen(t *rapid.T, o GenOpts) Prog {
 	}
 	nscripts := rapid.IntRange(0, 5).Draw(t, "nscripts")
 	for i := 0; i < nscripts; i++ {
+		if o.NetFaults && rapid.IntRange(0, 2).Draw(t, "nf_pre") == 0 {
+			// a broadcast fault right before the round: the operator's next message reports an error
+			p.Ops = append(p.Ops, Op{K: "netfail", I: rapid.IntRange(1, n).Draw(t, "nf_pi"), Limit: rapid.SampledFrom([]int{0, 0, 1}).Draw(t, "nf_pl")})
+		}
 		if nb > 0 && rapid.IntRange(0, 3).Draw(t, "equiv") == 0 {
 			p.Ops = append(p.Ops, equiv(t)...)
+		} else if nb > 0 && o.NetFaults && rapid.IntRange(0, 4).Draw(t, "commit_fault") == 0 {
+			p.Ops = append(p.Ops, commitFault(t)...)
+		} else if nb > 0 && rapid.IntRange(0, 5).Draw(t, "invalid_later") == 0 {
+			p.Ops = append(p.Ops, invalidLater(t)...)
+		} else if nb > 0 && o.MultiHeight && rapid.IntRange(0, 4).Draw(t, "replay") == 0 {
+			p.Ops = append(p.Ops, replay(t)...)
 		} else {
 			p.Ops = append(p.Ops, script(t)...)
 		}
